@@ -122,6 +122,45 @@ theorem pendFrom_next (isText : Bool) (f : Bytes) (fs : List Bytes) (cur : Bytes
   have : ¬ budget ≤ cur.length := by omega
   simp only [pendFrom, this, if_false]
 
+/-- with non-empty files at most every second pending byte is an injected newline -/
+theorem pendFrom_length_aux (isText : Bool) (later : List Bytes) (hne : ∀ g ∈ later, g ≠ []) :
+    ∀ (cur : Bytes) (budget : Nat),
+      (pendFrom isText later cur budget).length ≤ 2 * budget ∧
+      (cur ≠ [] → budget ≠ 0 → (pendFrom isText later cur budget).length + 1 ≤ 2 * budget) := by
+  induction later with
+  | nil =>
+    intro cur budget
+    simp only [pendFrom, List.length_take]
+    constructor
+    · omega
+    · intro hc hb
+      have : 0 < cur.length := List.length_pos_iff.mpr hc
+      omega
+  | cons f fs ih =>
+    intro cur budget
+    have hf : f ≠ [] := hne f (by simp)
+    have ih' := ih (fun g hg => hne g (by simp [hg])) f (budget - cur.length)
+    simp only [pendFrom]
+    by_cases hb : budget ≤ cur.length
+    · simp only [hb, if_true, List.length_take]
+      constructor
+      · omega
+      · intro hc hb0
+        have : 0 < cur.length := List.length_pos_iff.mpr hc
+        omega
+    · simp only [hb, if_false, List.length_append]
+      have h2 := ih'.2 hf (by omega)
+      have hnl : (if isText = true then [(10 : UInt8)] else []).length ≤ 1 := by split <;> simp
+      constructor
+      · omega
+      · intro hc _
+        have : 0 < cur.length := List.length_pos_iff.mpr hc
+        omega
+
+theorem pendFrom_length_le (isText : Bool) (later : List Bytes) (cur : Bytes) (budget : Nat)
+    (hne : ∀ g ∈ later, g ≠ []) : (pendFrom isText later cur budget).length ≤ 2 * budget :=
+  (pendFrom_length_aux isText later hne cur budget).1
+
 /-! ### the loop -/
 
 /-- `readLoop` started inside file `fp` at `pos` with `nleft ≤ budget` bytes wanted, where `budget`
@@ -137,7 +176,8 @@ theorem readLoop_spec (isText : Bool) (files : List Bytes) (hlen : files.length 
         files.drop fp' = f' :: later' ∧ pos' ≤ f'.length ∧ oc' = fileOffset files fp' + pos' ∧
         oc ≤ oc' ∧ oc' - oc ≤ budget ∧ taken.length = nleft ∧
         taken ++ pendFrom isText later' (f'.drop pos') (budget - (oc' - oc))
-          = pendFrom isText later (f.drop pos) budget := by
+          = pendFrom isText later (f.drop pos) budget ∧
+        taken.length ≤ (oc' - oc) + taken.count 10 := by
   intro fuel
   induction fuel with
   | zero => intro nleft fp pos oc acc f later budget _ _ _ _ _ hf; omega
@@ -151,7 +191,7 @@ theorem readLoop_spec (isText : Bool) (files : List Bytes) (hlen : files.length 
       have hn : ((f.drop pos).take nleft).length = nleft := by
         simp only [List.length_take, List.length_drop]; omega
       refine ⟨(f.drop pos).take nleft, fp, pos + nleft, oc + nleft, f, later, ?_, hdrop, by omega,
-        by omega, by omega, by omega, hn, ?_⟩
+        by omega, by omega, by omega, hn, ?_, by omega⟩
       · simp [hn]
       · have e1 : oc + nleft - oc = nleft := by omega
         have e2 : f.drop (pos + nleft) = (f.drop pos).drop nleft := by rw [List.drop_drop]
@@ -178,14 +218,14 @@ theorem readLoop_spec (isText : Bool) (files : List Bytes) (hlen : files.length 
           rw [rdLastFile_spec fp files.length (by omega)]; simp; omega
         simp only [hbad, hlast, Bool.false_eq_true, if_false]
         simp only [List.map_cons, List.sum_cons] at hbud
-        obtain ⟨taken, fp', pos', oc', f', later', hrun, hd', hp', ho', hle, hbd, htl, hpend⟩ :=
+        obtain ⟨taken, fp', pos', oc', f', later', hrun, hd', hp', ho', hle, hbd, htl, hpend, hcnt⟩ :=
           ih (if isText = true then nleft - (f.length - pos) - 1 else nleft - (f.length - pos))
             (fp + 1) 0 (oc + (f.length - pos))
             (if isText = true then acc ++ f.drop pos ++ [UInt8.ofNat rdNewline] else acc ++ f.drop pos)
             f2 fs (budget - (f.length - pos)) hdrop2 (by omega) (by omega)
             (by split <;> omega) (by omega) (by omega)
         refine ⟨f.drop pos ++ (if isText = true then [10] else []) ++ taken, fp', pos', oc', f', later',
-          ?_, hd', hp', ho', by omega, by omega, ?_, ?_⟩
+          ?_, hd', hp', ho', by omega, by omega, ?_, ?_, ?_⟩
         · rw [hrun]
           cases isText <;> simp [rdNewline_byte]
         · simp only [List.length_append, hcur, htl]
@@ -197,6 +237,8 @@ theorem readLoop_spec (isText : Bool) (files : List Bytes) (hlen : files.length 
             omega
           rw [e]
           simp only [List.append_assoc]
+        · simp only [List.length_append, List.count_append, hcur]
+          cases isText <;> simp <;> omega
 
 /-! ### `Read` -/
 
@@ -211,14 +253,15 @@ def ReadPost (F : Fmt) (s : Base) (size : Nat) (bytes : Bytes) (s' : Base) : Pro
 theorem read_ok (F : Fmt) (s : Base) (size : Nat) (hinv : RInv s)
     (hrange : totalSize s.files + size < 2 ^ 64) :
     ∃ bytes s', read F s size = .ok (bytes, s') ∧ ReadPost F s size bytes s' ∧
-      (s.fpos ≠ none → s.offBegin < s.offEnd → bytes.length = min size (s.offEnd - s.offCurr)) := by
+      (s.fpos ≠ none → s.offBegin < s.offEnd → bytes.length = min size (s.offEnd - s.offCurr)) ∧
+      s.offCurr ≤ s'.offCurr ∧ bytes.length ≤ (s'.offCurr - s.offCurr) + bytes.count 10 := by
   obtain ⟨hne, htot, hpos⟩ := hinv
   unfold read
   cases hfp : s.fpos with
   | none =>
     refine ⟨[], s, rfl, ⟨⟨hne, htot, hpos⟩, rfl, by simp, ?_, rfl, rfl, rfl, rfl, rfl, rfl⟩, ?_⟩
     · intro _; right; simp [pending, hfp]
-    · intro h; exact absurd rfl h
+    · exact ⟨fun h => absurd rfl h, Nat.le_refl _, by simp⟩
   | some pos =>
     simp only
     by_cases hemp : s.offEnd ≤ s.offBegin
@@ -226,7 +269,7 @@ theorem read_ok (F : Fmt) (s : Base) (size : Nat) (hinv : RInv s)
       simp only [this, if_true]
       refine ⟨[], s, rfl, ⟨⟨hne, htot, hpos⟩, rfl, by simp, ?_, rfl, rfl, rfl, rfl, rfl, rfl⟩, ?_⟩
       · intro _; right; simp [pending, hfp, hemp]
-      · intro _ h; omega
+      · exact ⟨fun _ h => by omega, Nat.le_refl _, by simp⟩
     · have hE : rdEmpty s.offBegin s.offEnd = false := by rw [rdEmpty_spec]; simp [hemp]
       simp only [hE, Bool.false_eq_true, if_false]
       rcases hpos with h | ⟨pos0, f, hfp0, hdrop, hp, hoc, hb, he⟩
@@ -254,7 +297,7 @@ theorem read_ok (F : Fmt) (s : Base) (size : Nat) (hinv : RInv s)
             · right
               have : s.offEnd - s.offCurr = 0 := by omega
               rw [hpend, this, pendFrom_zero]
-          · intro _ _; rfl
+          · exact ⟨fun _ _ => rfl, Nat.le_refl _, by simp⟩
         · simp only [hz, if_false]
           have hflen : s.files.length < 2 ^ 64 := by
             have := length_le_totalSize s.files hne; omega
@@ -262,7 +305,7 @@ theorem read_ok (F : Fmt) (s : Base) (size : Nat) (hinv : RInv s)
           rw [hdrop] at hsplit
           simp only [List.map_cons, List.sum_cons] at hsplit
           have hlater := length_of_drop s.files s.filePtr f _ hdrop
-          obtain ⟨taken, fp', pos', oc', f', later', hrun, hd', hp', ho', hle, hbd, htl, hpd⟩ :=
+          obtain ⟨taken, fp', pos', oc', f', later', hrun, hd', hp', ho', hle, hbd, htl, hpd, hcnt⟩ :=
             readLoop_spec F.isText s.files hflen (s.files.length + 1) (min size (s.offEnd - s.offCurr))
               s.filePtr pos s.offCurr [] f (s.files.drop (s.filePtr + 1)) (s.offEnd - s.offCurr)
               hdrop hp hoc (by omega) (by omega) (by omega)
@@ -270,7 +313,7 @@ theorem read_ok (F : Fmt) (s : Base) (size : Nat) (hinv : RInv s)
           simp only [List.nil_append]
           have hlater' : s.files.drop (fp' + 1) = later' := drop_succ_of_drop s.files fp' f' later' hd'
           refine ⟨taken, _, rfl, ⟨⟨hne, htot, Or.inr ⟨pos', f', rfl, ?_, hp', ho', ?_, ?_⟩⟩, ?_, ?_, ?_,
-            rfl, rfl, rfl, rfl, rfl, rfl⟩, fun _ _ => htl⟩
+            rfl, rfl, rfl, rfl, rfl, rfl⟩, fun _ _ => htl, hle, hcnt⟩
           · show s.files.drop fp' = f' :: s.files.drop (fp' + 1)
             rw [hlater']; exact hd'
           · show s.offBegin ≤ oc'; omega
@@ -325,9 +368,149 @@ theorem read_length (F : Fmt) (s : Base) (size : Nat) (bytes : Bytes) (s' : Base
     (hrd : read F s size = .ok (bytes, s')) (hinv : RInv s) (hrange : totalSize s.files + size < 2 ^ 64)
     (hfp : s.fpos ≠ none) (hpart : s.offBegin < s.offEnd) :
     bytes.length = min size (s.offEnd - s.offCurr) := by
-  obtain ⟨b, t, hrd', _, hl⟩ := read_ok F s size hinv hrange
+  obtain ⟨b, t, hrd', _, hl, _⟩ := read_ok F s size hinv hrange
   rw [hrd] at hrd'
   cases hrd'
   exact hl hfp hpart
+
+/-- real bytes versus injected newlines: every delivered byte that does not advance `offset_curr_` is a `'\n'` -/
+theorem read_count (F : Fmt) (s : Base) (size : Nat) (bytes : Bytes) (s' : Base)
+    (hrd : read F s size = .ok (bytes, s')) (hinv : RInv s) (hrange : totalSize s.files + size < 2 ^ 64) :
+    s.offCurr ≤ s'.offCurr ∧ bytes.length ≤ (s'.offCurr - s.offCurr) + bytes.count 10 := by
+  obtain ⟨b, t, hrd', _, _, hc⟩ := read_ok F s size hinv hrange
+  rw [hrd] at hrd'
+  cases hrd'
+  exact hc
+
+theorem count_le_one_of_drop (bytes : Bytes) (hno : ∀ b ∈ bytes.drop 1, b ≠ 10) : bytes.count 10 ≤ 1 := by
+  cases bytes with
+  | nil => simp
+  | cons b t =>
+    simp only [List.drop_succ_cons, List.drop_zero] at hno
+    have : t.count 10 = 0 := List.count_eq_zero.mpr (fun h => hno 10 h rfl)
+    rw [List.count_cons, this]
+    split <;> omega
+
+/-- a short `Read` that delivered no newline after its first byte leaves at most two bytes pending
+(bounds the doubling loop of `Chunk::Load`) -/
+theorem read_short (F : Fmt) (s : Base) (size : Nat) (bytes : Bytes) (s' : Base)
+    (hrd : read F s size = .ok (bytes, s')) (hinv : RInv s) (hrange : totalSize s.files + size < 2 ^ 64)
+    (hshort : bytes.length < size) (hno : ∀ b ∈ bytes.drop 1, b ≠ 10) :
+    (pending F s').length ≤ 2 := by
+  obtain ⟨hinv', happ, _, _, hfiles, hob, hoe, _⟩ := readSpec' F s size bytes s' hrd hinv hrange
+  have hle : (pending F s').length ≤ (pending F s).length := by
+    rw [← happ, List.length_append]; omega
+  by_cases hfp : s.fpos = none
+  · have : pending F s = [] := by simp [pending, hfp]
+    rw [this, List.length_nil] at hle; omega
+  · by_cases hpart : s.offBegin < s.offEnd
+    · have hlen := read_length F s size bytes s' hrd hinv hrange hfp hpart
+      obtain ⟨hmono, hcnt⟩ := read_count F s size bytes s' hrd hinv hrange
+      have hc1 := count_le_one_of_drop bytes hno
+      obtain ⟨hne', _, hpos'⟩ := hinv'
+      rcases hpos' with h | ⟨pos', f', hfp', hdrop', _, _, _, he'⟩
+      · omega
+      · have hnemp : ¬ s'.offEnd ≤ s'.offBegin := by omega
+        have hp : pending F s'
+            = pendFrom F.isText (s'.files.drop (s'.filePtr + 1)) (f'.drop pos') (s'.offEnd - s'.offCurr) := by
+          simp only [pending, hfp', hnemp, if_false, pend, hdrop']
+        have hb := pendFrom_length_le F.isText (s'.files.drop (s'.filePtr + 1)) (f'.drop pos')
+          (s'.offEnd - s'.offCurr) (fun g hg => hne' g (List.mem_of_mem_drop hg))
+        rw [hp]
+        omega
+    · have : pending F s = [] := by
+        cases h : s.fpos with
+        | none => exact absurd h hfp
+        | some p => simp only [pending, h]; rw [if_pos (by omega)]
+      rw [this, List.length_nil] at hle; omega
+
+/-! ### length of the pending stream -/
+
+/-- every later file contributes at most one injected newline -/
+theorem pendFrom_length_le_add (isText : Bool) (later : List Bytes) :
+    ∀ (cur : Bytes) (budget : Nat), (pendFrom isText later cur budget).length ≤ budget + later.length := by
+  induction later with
+  | nil => intro cur budget; simp only [pendFrom, List.length_take, List.length_nil]; omega
+  | cons f fs ih =>
+    intro cur budget
+    have ih' := ih f (budget - cur.length)
+    simp only [pendFrom]
+    by_cases hb : budget ≤ cur.length
+    · simp only [hb, if_true, List.length_take, List.length_cons]; omega
+    · simp only [hb, if_false, List.length_append, List.length_cons]
+      have hnl : (if isText = true then [(10 : UInt8)] else []).length ≤ 1 := by split <;> simp
+      omega
+
+/-- binary mode: exactly the budget, as long as it does not outlive the files -/
+theorem pendFrom_binary_length (later : List Bytes) :
+    ∀ (cur : Bytes) (budget : Nat), budget ≤ cur.length + (later.map List.length).sum →
+      (pendFrom false later cur budget).length = budget := by
+  induction later with
+  | nil =>
+    intro cur budget h
+    simp only [List.map_nil, List.sum_nil] at h
+    simp only [pendFrom, List.length_take]; omega
+  | cons f fs ih =>
+    intro cur budget h
+    simp only [List.map_cons, List.sum_cons] at h
+    simp only [pendFrom]
+    by_cases hb : budget ≤ cur.length
+    · simp only [hb, if_true, List.length_take]; omega
+    · have ih' := ih f (budget - cur.length) (by omega)
+      simp only [hb, if_false, Bool.false_eq_true, List.append_nil, List.length_append, ih']
+      omega
+
+theorem pending_length_le (F : Fmt) (s : Base) (_hinv : RInv s) :
+    (pending F s).length ≤ (s.offEnd - s.offCurr) + s.files.length := by
+  cases hfp : s.fpos with
+  | none => simp [pending, hfp]
+  | some pos =>
+    simp only [pending, hfp]
+    by_cases hemp : s.offEnd ≤ s.offBegin
+    · simp [hemp]
+    · simp only [hemp, if_false, pend]
+      cases hd : s.files.drop s.filePtr with
+      | nil => simp
+      | cons f later =>
+        simp only
+        have h1 := pendFrom_length_le_add F.isText later (f.drop pos) (s.offEnd - s.offCurr)
+        have h2 := length_of_drop s.files s.filePtr f later hd
+        omega
+
+theorem pending_binary_length (F : Fmt) (s : Base) (hinv : RInv s) (hb : F.isText = false)
+    (hne : s.offBegin < s.offEnd) (_hfp : s.fpos ≠ none) :
+    (pending F s).length = s.offEnd - s.offCurr := by
+  obtain ⟨_, htot, hpos⟩ := hinv
+  rcases hpos with h | ⟨pos, f, hfp', hdrop, hp, hoc, _, he⟩
+  · omega
+  · have hemp : ¬ s.offEnd ≤ s.offBegin := by omega
+    have hsplit := fileOffset_split s.files s.filePtr
+    rw [hdrop] at hsplit
+    simp only [List.map_cons, List.sum_cons] at hsplit
+    simp only [pending, hfp', hemp, if_false, pend, hdrop, hb]
+    apply pendFrom_binary_length
+    simp only [List.length_drop]
+    omega
+
+/-- binary mode: a short `Read` means the part is exhausted -/
+theorem read_short_binary (F : Fmt) (s : Base) (size : Nat) (bytes : Bytes) (s' : Base)
+    (h : read F s size = .ok (bytes, s')) (hinv : RInv s) (hr : totalSize s.files + size < 2 ^ 64)
+    (hb : F.isText = false) (hs : bytes.length < size) : pending F s' = [] := by
+  obtain ⟨hinv', happ, _, _, _, hob, hoe, _⟩ := readSpec' F s size bytes s' h hinv hr
+  have hsum : bytes.length + (pending F s').length = (pending F s).length := by
+    rw [← happ, List.length_append]
+  apply List.eq_nil_of_length_eq_zero
+  by_cases hfp : s.fpos = none
+  · have : pending F s = [] := by simp [pending, hfp]
+    rw [this, List.length_nil] at hsum; omega
+  · by_cases hpart : s.offBegin < s.offEnd
+    · have hlen := read_length F s size bytes s' h hinv hr hfp hpart
+      have hl := pending_binary_length F s hinv hb hpart hfp
+      omega
+    · have : pending F s = [] := by
+        cases h : s.fpos with
+        | none => exact absurd h hfp
+        | some p => simp only [pending, h]; rw [if_pos (by omega)]
+      rw [this, List.length_nil] at hsum; omega
 
 end DmlcModel.Split
